@@ -37,7 +37,7 @@ ASSUMPTIONS = ["frozen positions are 0-based (the convention full_shuffle implem
                "non-termination (N<5, single charge type) is counted as BUDGET",
                "bookkeeping is observed through the API: length, counts, per-residue charge via get_linear_NCPR(1), SCD, carried delta-max via get_deltaMax()",
                "swapRes indices are valid 0-based positions"]
-PROBES = ["frozen_as_shared_set", "earlier_api_result_still_held", "default_frozen_argument", "frozen_as_tuple", "frozen_as_frozenset", "frozen_as_range", "frozen_nonempty", "frozen_all", "frozen_out_of_range", "frozen_as_list", "cache_warm_before_move", "child_inherits_dmax",
+PROBES = ["permutants_object_reused", "frozen_as_shared_set", "earlier_api_result_still_held", "default_frozen_argument", "frozen_as_tuple", "frozen_as_frozenset", "frozen_as_range", "frozen_nonempty", "frozen_all", "frozen_out_of_range", "frozen_as_list", "cache_warm_before_move", "child_inherits_dmax",
           "same_seed_twice", "clock_went_back", "returns_self", "block_swap_attempt_99", "block_swap_N_lt_4", "cluster_draw_cap",
           "cluster_named_refusal", "chain_depth_ge_5", "panel_on_child", "permutant_api", "shuffle_api", "swapres_same_index",
           "three_types_sample", "moved_something"]
@@ -96,7 +96,7 @@ def gen_plan(streams, tier):
             op.update(gen_frozen(rnd, allow_list=True))
             ops.append(op)
         else:
-            ops.append({"k": "permutant", "o": o})
+            ops.append({"k": "permutant", "o": o, "reuse_permutants": rnd.random() < 0.7})
     return {"property": ID, "run_seed": streams.run_seed, "roots": roots, "rng_mode": rng_mode, "clock_mode": clock_mode,
             "bias": rnd.choice((0.15, 0.35, 0.6)), "ops": ops}
 
@@ -112,7 +112,7 @@ def gen_frozen(rnd, allow_list):
         ft = "shared_set"
     else:
         ft = "set"
-    return {"fz": spec, "fp": rnd.choice((0.1, 0.3, 0.6)), "fs": rnd.randrange(1 << 30), "ft": ft}
+    return {"fz": spec, "fp": rnd.choice((0.1, 0.3, 0.6)), "fs": rnd.randrange(1 << 30), "ft": ft, "kw": rnd.random() < 0.2}
 
 
 def resolve_frozen(op, seq):
@@ -353,6 +353,7 @@ def execute(plan, ctx):
         if depth[-1] >= 5:
             ctx.probe("chain_depth_ge_5")
 
+    perm_objs = {}
     api_results = []      # (what, returned SequenceParameters object, the sequence it had when it was returned)
 
     def sweep(why):
@@ -427,6 +428,8 @@ def execute(plan, ctx):
                 if op.get("fz") == "default":
                     ctx.probe("default_frozen_argument")
                     child = getattr(parent, m)()          # relies on the (mutable) default argument
+                elif op.get("kw"):
+                    child = getattr(parent, m)(frozen=fz)
                 else:
                     child = getattr(parent, m)(fz)
             elif k == "swapres":
@@ -447,6 +450,8 @@ def execute(plan, ctx):
                 if op.get("fz") == "default":
                     ctx.probe("default_frozen_argument")
                     res = wrap(parent).get_shuffled_sequence()
+                elif op.get("kw"):
+                    res = wrap(parent).get_shuffled_sequence(frozen=fz)
                 else:
                     res = wrap(parent).get_shuffled_sequence(fz)
                 child = res.SeqObj
@@ -456,7 +461,12 @@ def execute(plan, ctx):
                 key_site = "get_permutant"
                 cap[0] = 60 * N + 600
                 ctx.probe("permutant_api")
-                P = SequencePermutants(pseq)
+                if op.get("reuse_permutants", True) and pseq in perm_objs:
+                    P = perm_objs[pseq]
+                    ctx.probe("permutants_object_reused")
+                else:
+                    P = SequencePermutants(pseq)
+                    perm_objs[pseq] = P
                 got = P.get_permutant()
                 child = got.SeqObj
                 api_results.append(("get_permutant", got, got.get_sequence()))
